@@ -49,14 +49,15 @@ func (f *File) tokenEndSet() map[int]bool { f.computeEnds(); return f.endSet }
 
 // Pkg is a parsed and type-checked package.
 type Pkg struct {
-	Stream string // "S1", "S2", "S3"
-	Name   string // e.g. "S1/appendAssign", "S2/namesake_append", "S3/appendAssign#m12"
-	Fset   *token.FileSet
-	Files  []*File
-	Types  *types.Package
-	Info   *types.Info
-	Origin string // for S3: mutator description
-	Focus  string // when set, only this file is analysed (the other files are context)
+	Stream    string // "S1", "S2", "S3"
+	Name      string // e.g. "S1/appendAssign", "S2/namesake_append", "S3/appendAssign#m12"
+	Fset      *token.FileSet
+	Files     []*File
+	Types     *types.Package
+	Info      *types.Info
+	Origin    string          // for S3: mutator description
+	Focus     string          // when set, only this file is analysed (the other files are context)
+	FocusAlso map[string]bool // further files analysed after the focus file (same checker instances)
 
 	ClaimCheck  string      // near-miss inputs: "*" or the name of the re-typed variable; suggested fixes touching it must still type-check
 	Fresh       bool        // run with freshly constructed hand-written checker instances (no state from earlier files)
